@@ -224,8 +224,10 @@ Record st := St {
   txs : gmap nat batch;      (* open transactions *)
   mode1 : bool;              (* true: the DB itself is the index observable; false: a separate
                                 observable that only carries replicated writes (core wiring) *)
-  dedup : bool               (* Get skips a value listed twice (tree after fix F16); false = the
+  dedup : bool;              (* Get skips a value listed twice (tree after fix F16); false = the
                                 pinned upstream code, which appends the bucket once per listing *)
+  lbad : bool; sbad : bool   (* populateErr of the lookup / sorted index: the bulk populate scan
+                                failed; sticky until the table is opened again *)
 }.
 
 Definition view (s : st) (t : nat) : table :=
@@ -482,8 +484,8 @@ Definition ord_holds (desc : bool) (cursor : option Z) (f : option ftree) (r : r
 Definition obs1 (s : st) (w : N * option row) : st :=
   match w.2 with
   | Some r => St (rows s) (l_put w.1 (ra r) (li s)) (s_set w.1 (rb r) (si s))
-                 (lov s) (sov s) (txs s) (mode1 s) (dedup s)
-  | None => St (rows s) (l_del w.1 (li s)) (s_del w.1 (si s)) (lov s) (sov s) (txs s) (mode1 s) (dedup s)
+                 (lov s) (sov s) (txs s) (mode1 s) (dedup s) (lbad s) (sbad s)
+  | None => St (rows s) (l_del w.1 (li s)) (s_del w.1 (si s)) (lov s) (sov s) (txs s) (mode1 s) (dedup s) (lbad s) (sbad s)
   end.
 Definition observe (b : batch) (s : st) : st := fold_left obs1 b s.
 
@@ -493,22 +495,22 @@ Definition w_set (t : nat) (r : row) (s : st) : st :=
   match t with
   | O =>
       (* db.Set = one-op transaction: apply, notify (mode 1), then stage with nil identity *)
-      let s1 := St (<[k := r]> (rows s)) (li s) (si s) (lov s) (sov s) (txs s) (mode1 s) (dedup s) in
+      let s1 := St (<[k := r]> (rows s)) (li s) (si s) (lov s) (sov s) (txs s) (mode1 s) (dedup s) (lbad s) (sbad s) in
       let s2 := if mode1 s then obs1 s1 (k, Some r) else s1 in
-      St (rows s2) (l_put k (ra r) (li s2)) (s_set k (rb r) (si s2)) (lov s2) (sov s2) (txs s2) (mode1 s2) (dedup s2)
+      St (rows s2) (l_put k (ra r) (li s2)) (s_set k (rb r) (si s2)) (lov s2) (sov s2) (txs s2) (mode1 s2) (dedup s2) (lbad s2) (sbad s2)
   | _ =>
       St (rows s) (li s) (si s) (ov_stage t k (ra r) (lov s)) (ov_stage t k (rb r) (sov s))
-         (<[t := default [] (txs s !! t) ++ [(k, Some r)]]> (txs s)) (mode1 s) (dedup s)
+         (<[t := default [] (txs s !! t) ++ [(k, Some r)]]> (txs s)) (mode1 s) (dedup s) (lbad s) (sbad s)
   end.
 Definition w_del (t : nat) (k : N) (s : st) : st :=
   match t with
   | O =>
-      let s1 := St (delete k (rows s)) (li s) (si s) (lov s) (sov s) (txs s) (mode1 s) (dedup s) in
+      let s1 := St (delete k (rows s)) (li s) (si s) (lov s) (sov s) (txs s) (mode1 s) (dedup s) (lbad s) (sbad s) in
       let s2 := if mode1 s then obs1 s1 (k, None) else s1 in
-      St (rows s2) (l_del k (li s2)) (s_del k (si s2)) (lov s2) (sov s2) (txs s2) (mode1 s2) (dedup s2)
+      St (rows s2) (l_del k (li s2)) (s_del k (si s2)) (lov s2) (sov s2) (txs s2) (mode1 s2) (dedup s2) (lbad s2) (sbad s2)
   | _ =>
       St (rows s) (li s) (si s) (ov_unstage t k (lov s)) (ov_unstage t k (sov s))
-         (<[t := default [] (txs s !! t) ++ [(k, None)]]> (txs s)) (mode1 s) (dedup s)
+         (<[t := default [] (txs s !! t) ++ [(k, None)]]> (txs s)) (mode1 s) (dedup s) (lbad s) (sbad s)
   end.
 
 (* flush of one delta into committed index state *)
@@ -520,7 +522,7 @@ Definition s_flush (d : delta) (x : sidx) : sidx :=
 (* kv commit of t: apply the batch; in mode 1 the index observer replays it *)
 Definition kv_commit (t : nat) (s : st) : st :=
   let b := default [] (txs s !! t) in
-  let s1 := St (apply_batch b (rows s)) (li s) (si s) (lov s) (sov s) (txs s) (mode1 s) (dedup s) in
+  let s1 := St (apply_batch b (rows s)) (li s) (si s) (lov s) (sov s) (txs s) (mode1 s) (dedup s) (lbad s) (sbad s) in
   if mode1 s then observe b s1 else s1.
 (* runCleanups(committed): drop the deltas; flush them when committed *)
 Definition cleanups (committed : bool) (t : nat) (s : st) : st :=
@@ -530,7 +532,7 @@ Definition cleanups (committed : bool) (t : nat) (s : st) : st :=
   let x := match sov s !! t with
            | Some d => if committed && negb (bool_decide (d_state d = ∅)) then s_flush d (si s) else si s
            | None => si s end in
-  St (rows s) l x (delete t (lov s)) (delete t (sov s)) (delete t (txs s)) (mode1 s) (dedup s).
+  St (rows s) l x (delete t (lov s)) (delete t (sov s)) (delete t (txs s)) (mode1 s) (dedup s) (lbad s) (sbad s).
 
 Definition commit (t : nat) (s : st) : st := cleanups true t (kv_commit t s).
 Definition abort (t : nat) (s : st) : st := cleanups false t s.
@@ -546,11 +548,23 @@ Definition s_populate (m : table) : sidx :=
   SIdx (isort (fun a b => Z.leb a.1 b.1) (map (fun r => (rb r, rk r)) rs))
        (list_to_map (map (fun r => (rk r, rb r)) rs)).
 Definition reopen (s : st) : st :=
-  St (rows s) (l_populate (rows s)) (s_populate (rows s)) ∅ ∅ ∅ (mode1 s) (dedup s).
+  St (rows s) (l_populate (rows s)) (s_populate (rows s)) ∅ ∅ ∅ (mode1 s) (dedup s) false false.
+(* OpenTable whose populate scan dies after j rows (the iterator turns invalid and reports the error
+   from Error()/Close()): every index keeps the rows seen so far (the sorted slice unsorted: sortBulk
+   is skipped) and is flagged invalid. A scan that ends before the fault is an ordinary populate. *)
+Definition reopen_fault (j : nat) (s : st) : st :=
+  let rs := sorted_rows (rows s) in
+  if (j <? length rs)%nat then
+    let seen := take j rs in
+    St (rows s)
+       (fold_left (fun l r => l_put (rk r) (ra r) l) seen l_empty)
+       (SIdx (map (fun r => (rb r, rk r)) seen) (list_to_map (map (fun r => (rk r, rb r)) seen)))
+       ∅ ∅ ∅ (mode1 s) (dedup s) true true
+  else reopen s.
 
 (* a write applied to the kv store outside any gorp writer, announced through the observable *)
 Definition replicate (b : batch) (s : st) : st :=
-  observe b (St (apply_batch b (rows s)) (li s) (si s) (lov s) (sov s) (txs s) (mode1 s) (dedup s)).
+  observe b (St (apply_batch b (rows s)) (li s) (si s) (lov s) (sov s) (txs s) (mode1 s) (dedup s) (lbad s) (sbad s)).
 
 (* ------------------------------------------------------------------ operations *)
 Inductive op :=
@@ -569,7 +583,9 @@ Inductive op :=
 | Repl (b : batch)
 | Get (t : nat) (i : iid) (vs : list Z)
 (* tx.Commit whose underlying kv commit returns an error: cleanups run with committed=false *)
-| CommitFail (t : nat).
+| CommitFail (t : nat)
+(* close + OpenTable with a storage fault j rows into the populate scan *)
+| ReopenFault (j : nat).
 
 Inductive out :=
 | OSkip
@@ -584,13 +600,28 @@ Definition upd (a b c : option Z) (r : row) : row :=
 Definition run_query (s : st) (t : nat) (f : filt) : qout :=
   exec_query (renv_of s t) (view s t) f.
 
+(* an invalid index makes its Filter's resolver return ErrIndexInvalid; the error passes through
+   every And/Or/Not resolver above it and Retrieve.resolveFilter swallows it: keys and membership are
+   cleared, the construction-time eval stays — a sequential scan *)
+Fixpoint uses_bad (lb sb : bool) (f : ftree) : bool :=
+  match f with
+  | FIdx IA _ => lb
+  | FIdx IB _ => sb
+  | FAnd fs | FOr fs => existsb (uses_bad lb sb) fs
+  | FNot c => uses_bad lb sb c
+  | _ => false
+  end.
+Definition qbuild (s : st) (f : ftree) : filt :=
+  let F := build f in
+  if uses_bad (lbad s) (sbad s) f then Filt (f_eval F) None None else F.
+
 Definition step (s : st) (o : op) : st * out :=
   match o with
   | Begin t =>
       match t with
       | O => (s, OSkip)
       | _ => if is_open s t then (s, OSkip)
-             else (St (rows s) (li s) (si s) (lov s) (sov s) (<[t := []]> (txs s)) (mode1 s) (dedup s), ODone 0)
+             else (St (rows s) (li s) (si s) (lov s) (sov s) (<[t := []]> (txs s)) (mode1 s) (dedup s) (lbad s) (sbad s), ODone 0)
       end
   | Create t rs =>
       if is_open s t then (fold_left (fun acc r => w_set t r acc) rs s, ODone 0) else (s, OSkip)
@@ -603,7 +634,7 @@ Definition step (s : st) (o : op) : st * out :=
       else (s, OSkip)
   | UpdateF t f a b c =>
       if is_open s t then
-        let q := run_query s t (build f) in
+        let q := run_query s t (qbuild s f) in
         if N.eqb (q_err q) 0
         then (fold_left (fun acc r => w_set t (upd a b c r) acc) (q_rows q) s, ODone 0)
         else (s, ODone (q_err q))
@@ -615,17 +646,18 @@ Definition step (s : st) (o : op) : st * out :=
       else (s, OSkip)
   | DeleteF t f =>
       if is_open s t then
-        let q := run_query s t (build f) in
+        let q := run_query s t (qbuild s f) in
         (fold_left (fun acc r => w_del t (rk r) acc) (q_rows q) s, ODone 0)
       else (s, OSkip)
   | Query t f =>
       if is_open s t
-      then (s, OQ (run_query s t (build f)) (run_query s t (mk_pred (holds f))))
+      then (s, OQ (run_query s t (qbuild s f)) (run_query s t (mk_pred (holds f))))
       else (s, OSkip)
   | OQuery t desc cursor limit f =>
       if is_open s t
-      then (s, OOrd (exec_ordered (renv_of s t) (view s t) (si s) desc cursor limit
-                                  (option_map build f))
+      then (s, OOrd (if sbad s then []    (* walkOrder treats an invalid index as empty *)
+                     else exec_ordered (renv_of s t) (view s t) (si s) desc cursor limit
+                                       (option_map (qbuild s) f))
                     (run_query s t (mk_pred (ord_holds desc cursor f))))
       else (s, OSkip)
   | Commit t =>
@@ -648,13 +680,18 @@ Definition step (s : st) (o : op) : st * out :=
   | Repl b => (replicate b s, ODone 0)
   | Get t i vs =>
       if is_open s t
-      then (s, OKeys (match vs with [] => [] | _ => idx_get s t i vs end))
+      then (s, match vs with
+               | [] => OKeys []
+               | _ => if (match i with IA => lbad s | IB => sbad s end) then ODone 2   (* ErrIndexInvalid *)
+                      else OKeys (idx_get s t i vs)
+               end)
       else (s, OSkip)
   | CommitFail t =>
       match t with
       | O => (s, OSkip)
       | _ => if is_open s t then (abort t s, ODone 2) else (s, OSkip)
       end
+  | ReopenFault j => (reopen_fault j s, ODone 0)
   end.
 
 Fixpoint run (s : st) (ops : list op) : st :=
@@ -666,4 +703,4 @@ Fixpoint run (s : st) (ops : list op) : st :=
 (* the state OpenTable produces over pre-existing rows *)
 Definition init (m1 dd : bool) (seed : list row) : st :=
   let m : table := list_to_map (map (fun r => (rk r, r)) (rev seed)) in
-  St m (l_populate m) (s_populate m) ∅ ∅ ∅ m1 dd.
+  St m (l_populate m) (s_populate m) ∅ ∅ ∅ m1 dd false false.
